@@ -4,3 +4,4 @@ import GontainerModel.Props.C06
 #print axioms GM.C06.params_report_count
 #print axioms GM.C06.todo_service_declared
 #print axioms GM.C06.wiring_pinned
+#print axioms GM.C06.pattern_deps_all_refs
